@@ -107,9 +107,11 @@ def handle : DrvHandler := fun op args =>
       let e : TEnv := { now := ← jInt? (← jField? ej "now"), stop := ← jBool? (← jField? ej "stop"),
                         idleReset := ← jInt? (← jField? ej "idleReset") }
       let l : TLoc := { pc := ← (jStr? (← jField? lj "pc") >>= pcOf?), started := ← jInt? (← jField? lj "started"),
-                        done := ← jBool? (← jField? lj "done"), errDelay := ← jInt? (← jField? lj "errDelay") }
+                        done := ← jBool? (← jField? lj "done"), failed := ← jBool? (← jField? lj "failed"),
+                        errDelay := ← jInt? (← jField? lj "errDelay") }
       let k ← jNat? (← jField? j "k")
-      some (ok (Json.mkObj [("spinning", .bool (spinning c e l)), ("settles", .bool (settles c e (true, 0) k l))]))
+      let o : Outcome := { done := true, failed := false, errDelay := 0 }
+      some (ok (Json.mkObj [("spinning", .bool (spinning c e l)), ("settles", .bool (settles c e o k l))]))
   | "C09.variant", [] => some (ok (Json.mkObj [("treeGuarded", .bool treeGuarded)]))
   | _, _ => none
 
